@@ -457,6 +457,11 @@ namespace awkward {
       return itemsize_;
     }
     else {
+      for (size_t i = 0;  i < shape_.size();  i++) {
+        if (shape_[i] == 0) {
+          return 0;
+        }
+      }
       ssize_t out = itemsize_;
       for (size_t i = 0;  i < shape_.size();  i++) {
         out += (shape_[i] - 1)*strides_[i];
